@@ -1,5 +1,6 @@
 import SSDriver.C13
 import SSDriver.C10
+import SSDriver.C18
 import SSDriver.C11
 import SSDriver.C12
 import SSDriver.C17
@@ -14,6 +15,8 @@ def dispatch (j : Json) : Except String String := do
   let p ← (← j.getObjVal? "p").getStr?
   match p with
   | "C13" => SS.Drv.C13.handle j
+  | "C18" => SS.Drv.C18.handle j
+  | "C19" => SS.Drv.C18.handle j
   | "C11" => SS.Drv.C11.handle j
   | "C12" => SS.Drv.C12.handle j
   | "C17" => SS.Drv.C17.handle j
